@@ -97,7 +97,8 @@ PROPS["C03"] = {
     "lean_module": "LispModel.Props.C03",
     "engines": [{"name": "try", "quick": 5000, "thorough": 100000},
                 {"name": "goerr", "quick": 2000, "thorough": 40000},
-                {"name": "lerr", "quick": 3000, "thorough": 60000}],
+                {"name": "lerr", "quick": 3000, "thorough": 60000},
+                {"name": "errbi", "quick": 1, "thorough": 1, "deterministic": True}],
     "technique": "Lean 4 theorems about the try/catch/finally arm of the evaluator model + differential correspondence on nested try programs",
     "level_text": "Theorems: value of try = body value or handler value (returned, not re-evaluated), catch variable scoped to the handler, finally runs exactly "
                   "once on every path without changing the outcome, thrown payload unchanged through calls / builtin callbacks / nested tries; tie: generated "
